@@ -221,12 +221,12 @@ const (
 	itNext = iota
 	itPrev
 	itRewind
-	itSeekBelow  // key 5: before everything
-	itSeekFirst  // key 10
-	itSeekMid    // key of the middle element
-	itSeekGap    // between two keys
-	itSeekLast   // last key
-	itSeekAbove  // beyond everything
+	itSeekBelow // key 5: before everything
+	itSeekFirst // key 10
+	itSeekMid   // key of the middle element
+	itSeekGap   // between two keys
+	itSeekLast  // last key
+	itSeekAbove // beyond everything
 	itNops
 )
 
